@@ -7,6 +7,12 @@ mutex: one critical section = one function here). Callers follow `CircuitBreaker
 `CircuitBreakerWithFallback::call`: critical section `tryAcquire`, the inner call, critical
 section `record`. One poll of one call future is one step.
 
+A rejected caller of the fallback variant is handed to the configured fallback *outside* every
+critical section: the handler is invoked in the rejecting step (`fallback_call`), its future is
+polled in that step and, when it does not finish at once (scripted `fb=<lat>:<out>`), the caller
+sits in `falling` until a later poll finds it finished or the caller drops it. A pending fallback
+owns nothing of the breaker: no step of a `falling` caller reads or writes `circ`.
+
 Thresholds are exact rationals `num/den`; `reached f n num den` is `f/n ≥ num/den` (for the
 window sizes used here this coincides with the code's `f as f64 / n as f64 >= θ`, see DESIGN §8 C04).
 -/
@@ -54,6 +60,8 @@ inductive CEv
   | transition (a b : St)
   | manual (what : String)
   | views (s : String)
+  | fbCall (c : Nat)
+  | fbDrop (c : Nat)
 deriving DecidableEq, Repr
 
 def CEv.toEv : CEv → Ev
@@ -64,6 +72,8 @@ def CEv.toEv : CEv → Ev
   | .transition a b => .raw s!"transition {a.name} {b.name}"
   | .manual w => .raw s!"manual {w}"
   | .views s => .probe s
+  | .fbCall c => .raw s!"fallback_call {c}"
+  | .fbDrop c => .raw s!"fallback_drop {c}"
 
 structure Circuit where
   st          : St := .closed
@@ -205,6 +215,14 @@ structure Fresh where
   c   : Nat
   sc  : Step
   tag : Nat
+  fb  : Step := { lat := 0, out := .ok }   -- script of this caller's fallback future
+deriving Repr
+
+/-- a rejected caller whose fallback future is pending -/
+structure Falling where
+  c      : Nat
+  doneAt : Nat
+  out    : Out
 deriving Repr
 
 structure State where
@@ -212,13 +230,14 @@ structure State where
   circ    : Circuit := {}
   fresh   : List Fresh := []
   running : List Caller := []
+  falling : List Falling := []
   seen    : List Nat := []
   serial  : Nat := 0
   log     : List (Nat × CEv) := []   -- ghost: every event so far, with its instant
 deriving Repr
 
 inductive Op
-  | arrive (c : Nat) (sc : Step) (tag : Nat)
+  | arrive (c : Nat) (sc : Step) (tag : Nat) (fb : Step := { lat := 0, out := .ok })
   | poll (c : Nat)
   | drop (c : Nat)
   | adv (ms : Nat)
@@ -242,12 +261,35 @@ def emit (s : State) (evs : List CEv) : State := { s with log := s.log ++ evs.ma
 
 def findFresh (l : List Fresh) (c : Nat) : Option Fresh := l.find? (·.c == c)
 def findRunning (l : List Caller) (c : Nat) : Option Caller := l.find? (·.c == c)
+def findFalling (l : List Falling) (c : Nat) : Option Falling := l.find? (·.c == c)
 
 def resOf (k : Nat) : Out → Res
   | .ok => .ok k
   | .err kd => .inner kd k
   | .panic => .panic
   | .never => .panic
+
+/-- what the fallback future of caller `c` resolves to -/
+def fbRes (c : Nat) : Out → Res
+  | .ok => .fallback c
+  | .err kd => .inner kd c
+  | .panic => .panic
+  | .never => .panic
+
+/-- a rejected caller is handed to the fallback: the handler is invoked and its future polled once, in
+the rejecting step and outside every critical section; if it is not finished the caller waits in `falling` -/
+def startFallback (s : State) (f : Fresh) : State :=
+  if f.fb.lat = 0 ∧ f.fb.out ≠ .never then emit s [.fbCall f.c, .result f.c (fbRes f.c f.fb.out)]
+  else emit { s with falling := s.falling ++ [{ c := f.c, doneAt := s.now + f.fb.lat, out := f.fb.out }] } [.fbCall f.c]
+
+/-- the fallback future of `falling` caller `r` is polled: nothing of the breaker is involved -/
+def pollFalling (s : State) (r : Falling) : State :=
+  if s.now ≥ r.doneAt ∧ r.out ≠ .never then
+    emit { s with falling := s.falling.eraseP (·.c == r.c) } [.result r.c (fbRes r.c r.out)]
+  else s
+
+def dropFalling (s : State) (r : Falling) : State :=
+  emit { s with falling := s.falling.eraseP (·.c == r.c) } [.fbDrop r.c]
 
 /-- completion of the inner call of running caller `r` (the caller has already left `running`) -/
 def complete (cfg : Cfg) (s : State) (r : Caller) : State :=
@@ -281,7 +323,7 @@ def admitStep (cfg : Cfg) (s : State) (f : Fresh) : State × Bool :=
     let r : Caller := { c := f.c, k := s.serial, start := s.now, doneAt := s.now + f.sc.lat, out := f.sc.out,
                         tag := f.tag, ep := ep }
     (emit { s with running := s.running ++ [r], serial := s.serial + 1 } [.innerCall f.c s.serial], true)
-  else if cfg.fallback then (emit s [.result f.c (.fallback f.c)], false)
+  else if cfg.fallback then (startFallback s f, false)
   else (emit s [.result f.c .openCircuit], false)
 
 /-- first poll: admission, then the inner future is polled in the same step -/
@@ -300,21 +342,26 @@ def viewsString (cfg : Cfg) (c : Circuit) : String :=
 def stepS (cfg : Cfg) (s : State) (op : Op) : State :=
   match op with
   | .adv ms => { s with now := s.now + ms }
-  | .arrive c sc tag =>
+  | .arrive c sc tag fb =>
       if s.seen.contains c then s
-      else { s with fresh := s.fresh ++ [{ c := c, sc := sc, tag := tag }], seen := c :: s.seen }
+      else { s with fresh := s.fresh ++ [{ c := c, sc := sc, tag := tag, fb := fb }], seen := c :: s.seen }
   | .poll c =>
       match findFresh s.fresh c with
       | some f => pollFresh cfg s f
       | none =>
-        pollRunning cfg s c
+        match findFalling s.falling c with
+        | some r => pollFalling s r
+        | none => pollRunning cfg s c
   | .drop c =>
       match findFresh s.fresh c with
       | some _ => { s with fresh := s.fresh.eraseP (·.c == c) }
       | none =>
-        match findRunning s.running c with
-        | some r => dropRunning s c r
-        | none => s
+        match findFalling s.falling c with
+        | some r => dropFalling s r
+        | none =>
+          match findRunning s.running c with
+          | some r => dropRunning s c r
+          | none => s
   | .forceOpen =>
       let tr := transitionTo s.circ .opened s.now
       emit { s with circ := tr.1 } ([.manual "force_open"] ++ tr.2)
@@ -352,7 +399,8 @@ def parseOp (ws : List String) : Option Op :=
   | "arrive" :: c :: rest =>
       let kv := parseKv rest
       let c := c.toNat?.getD 0
-      some (.arrive c ((planOf kv).headD { lat := 0, out := .ok }) (kv.nat "tag" c))
+      some (.arrive c ((planOf kv).headD { lat := 0, out := .ok }) (kv.nat "tag" c)
+        ((parsePlan (kv.str "fb" "0:ok")).headD { lat := 0, out := .ok }))
   | "poll" :: c :: _ => some (.poll (c.toNat?.getD 0))
   | "drop" :: c :: _ => some (.drop (c.toNat?.getD 0))
   | "adv" :: ms :: _ => some (.adv (ms.toNat?.getD 0))
